@@ -272,6 +272,11 @@ func newWriteCmdArgsFromInputInstances(cmd *cobra.Command, inputInstances []*inp
 				return nil, err
 			}
 		}
+		if k := v.Key; k != nil {
+			if _, err := op.NewScale(*k); err != nil {
+				return nil, fmt.Errorf("%w: instances[%d]", err, i)
+			}
+		}
 		if c := x.Chord; c != nil {
 			x, ok := cmap.GetChord(c.Chord)
 			if !ok {
